@@ -253,6 +253,15 @@ def generate(rng, n, tier="quick"):
                      [DEV, TRK, {"op": "clone", "reg": 0}, fl, WR("F3")]):
             out.append(build([dict(o) for o in hist], "%s-d%03d" % (ID, d)))
             d += 1
+    # directed: a tracked file INCLUDED as a partial by another template follows its file too
+    TRKB = {"op": "reg_file", "reg": 0, "name": "b", "file": "f1"}
+    for inc in ("{{> b}}!", "x\n  {{> b}}\ny"):
+        INC_A = {"op": "reg_string", "reg": 0, "name": "a", "src": inc}
+        for hist in ([DEV, TRKB, INC_A, WR("F3")], [DEV, INC_A, TRKB, WR("F3")], [DEV, TRKB, WR("F3"), INC_A],
+                     [DEV, TRKB, INC_A, WR("F3"), {"op": "set_dev", "reg": 0, "v": False}], [TRKB, INC_A, DEV, WR("F3")],
+                     [DEV, TRKB, INC_A, {"op": "clone", "reg": 0}, WR("L1\nL2{{x}}")]):
+            out.append(build([dict(o) for o in hist], "%s-d%03d" % (ID, d)))
+            d += 1
     for j in range(n):
         r = rng.fork(j)
         hist = []
